@@ -73,9 +73,6 @@ Proof.
   - pose proof (chain_sorted_tail s Hwf l1 tip a l2 E b H3). lia.
 Qed.
 
-Lemma wrap32_id z : -2147483648 <= z < 2147483648 -> wrap32 z = z.
-Proof. intros H. unfold wrap32. rewrite Z.mod_small by lia. lia. Qed.
-
 (* ------------------------------------------------------------------------------------------ *)
 (* C02                                                                                        *)
 (* ------------------------------------------------------------------------------------------ *)
@@ -120,25 +117,16 @@ Proof.
     + pose proof (find_none _ _ Ef r Hc) as Hn. cbv beta in Hn. rewrite (proj2 (Z.eqb_eq _ _) Hh) in Hn. discriminate.
 Qed.
 
-Definition int32 (z : Z) := -2147483648 <= z < 2147483648.
-
-(* the modelled verdict IS the declarative verdict *)
+(* the modelled verdict IS the declarative verdict - for EVERY configured excess (since fix 54e9bff) *)
 Theorem verify1_spec s tip t excess it : Inv s tip -> by_hash s tip = Some t ->
-  0 <= excess < 2147483648 -> int32 (snd it) ->
   verify1 s (height t) excess it = spec_verify1 s tip excess it.
 Proof.
-  intros HI Ht He Hh. unfold verify1, spec_verify1. rewrite Ht. pose proof HI as (Hwf & _ & _).
-  destruct (tip_is_L s tip t HI Ht) as [Htin HtL].
-  pose proof (wf_height_nonneg s Hwf t Htin) as Hnn.
-  assert (Hab: (height t <? snd it) && (wrap32 (snd it - height t) <=? wrap32 excess) =
-               (height t <? snd it) && (snd it - height t <=? excess)).
-  { destruct (Z.ltb_spec (height t) (snd it)) as [Hlt|Hge]; [|reflexivity]. cbn.
-    unfold int32 in Hh. rewrite (wrap32_id (snd it - height t)) by lia. rewrite (wrap32_id excess) by lia. reflexivity. }
+  intros HI Ht. unfold verify1, spec_verify1. rewrite Ht.
   destruct (verify_hash s (fst it) (snd it)) as [r|] eqn:Ev.
   - destruct (verify_hash_some _ _ _ _ Ev) as (Hin & Hr & Hrh & HL).
     rewrite (proj2 (best_at_iff s tip (snd it) r HI) (conj Hin (conj HL Hrh))).
     rewrite (proj2 (N.eqb_eq _ _) Hr). reflexivity.
-  - rewrite Hab. destruct (best_at s tip (snd it)) as [r'|] eqn:Eb; [|reflexivity].
+  - destruct (best_at s tip (snd it)) as [r'|] eqn:Eb; [|reflexivity].
     apply (best_at_iff s tip (snd it) r' HI) in Eb. destruct Eb as (Hin' & HL' & Hh').
     destruct (N.eqb_spec (root r') (fst it)) as [E|E]; [|reflexivity].
     exfalso. exact (verify_hash_none _ _ _ Ev r' Hin' HL' Hh' E).
@@ -152,38 +140,32 @@ Proof.
   - destruct (verify_hash s rt h) as [r|] eqn:Ev.
     + intros H. inversion H; subst x. destruct (verify_hash_some _ _ _ _ Ev) as (Hin & Hr & Hh & HL).
       exists r. auto.
-    + destruct ((tipH <? h) && (wrap32 (h - tipH) <=? wrap32 excess)); discriminate.
+    + destruct ((tipH <? h) && (h - tipH <=? excess)); discriminate.
   - intros (r & Hin & HL & Hh & Hr & Hx). rewrite (verify_hash_found s tip rt h r HI Hin HL Hh Hr). congruence.
 Qed.
 
 Theorem verdict_unable_iff s tip tipH excess rt h : Inv s tip -> tip_height s = Some tipH ->
-  0 <= excess < 2147483648 -> int32 h ->
   (verify1 s tipH excess (rt, h) = UnableToVerify <-> tipH < h <= tipH + excess).
 Proof.
-  intros HI Htip He Hh. unfold verify1. cbn [fst snd]. pose proof HI as (Hwf & (t & Ht & _) & _).
+  intros HI Htip. unfold verify1. cbn [fst snd]. pose proof HI as (Hwf & (t & Ht & _) & _).
   rewrite (tip_height_inv s tip t HI Ht) in Htip. inversion Htip; subst tipH. clear Htip.
-  destruct (tip_is_L s tip t HI Ht) as [Htin HtL].
-  pose proof (wf_height_nonneg s Hwf t Htin) as Hnn. unfold int32 in Hh.
   split.
   - destruct (verify_hash s rt h) as [r|]; [discriminate|].
     destruct (Z.ltb_spec (height t) h) as [Hlt|Hge]; cbn; [|discriminate].
-    rewrite (wrap32_id (h - height t)) by lia. rewrite (wrap32_id excess) by lia.
     destruct (Z.leb_spec (h - height t) excess); [lia| discriminate].
   - intros [H1 H2]. destruct (verify_hash s rt h) as [r|] eqn:Ev.
     + exfalso. destruct (verify_hash_some _ _ _ _ Ev) as (Hin & _ & Hrh & HL).
       destruct (tip_height_max s tip t HI Ht r Hin HL) as [->|Hlt]; lia.
     + destruct (Z.ltb_spec (height t) h) as [Hlt|Hge]; [|lia]. cbn.
-      rewrite (wrap32_id (h - height t)) by lia. rewrite (wrap32_id excess) by lia.
       destruct (Z.leb_spec (h - height t) excess); [reflexivity| lia].
 Qed.
 
 Theorem invalid_otherwise s tip tipH excess rt h : Inv s tip -> tip_height s = Some tipH ->
-  0 <= excess < 2147483648 -> int32 h ->
   (verify1 s tipH excess (rt, h) = Invalid <->
    ~ (exists r, In r s /\ st r = Longest /\ height r = h /\ root r = rt) /\ ~ (tipH < h <= tipH + excess)).
 Proof.
-  intros HI Htip He Hh.
-  pose proof (verdict_unable_iff s tip tipH excess rt h HI Htip He Hh) as HU.
+  intros HI Htip.
+  pose proof (verdict_unable_iff s tip tipH excess rt h HI Htip) as HU.
   split.
   - intros HV. split.
     + intros (r & Hin & HL & Hrh & Hr).
@@ -196,6 +178,11 @@ Proof.
       destruct Ev as (r & H1 & H2 & H3 & H4 & _). exists r. auto.
     + exfalso. apply Hn2. apply HU. reflexivity.
 Qed.
+
+(* a negative configured excess: no height is ever UNABLE_TO_VERIFY (the window tip < h <= tip + excess is empty) *)
+Corollary negative_excess_never_unable s tip tipH excess rt h : Inv s tip -> tip_height s = Some tipH ->
+  excess < 0 -> verify1 s tipH excess (rt, h) <> UnableToVerify.
+Proof. intros HI Htip He H. apply (verdict_unable_iff s tip tipH excess rt h HI Htip) in H. lia. Qed.
 
 (* --- the whole answer --- *)
 Definition answers (s : store) (tipH excess : Z) (items : list (N * Z)) : list answer :=
@@ -296,19 +283,18 @@ Qed.
 (* after ANY positive-work history the verdict the code computes equals the declarative verdict evaluated on
    the specification's (label-free) store and its best header *)
 Theorem C02_verdict_is_spec f gid gpl hs excess it : gid <> 0%N -> positive_work hs -> nonzero_ids hs ->
-  0 <= excess < 2147483648 -> int32 (snd it) ->
   let s := run f gid gpl hs in
   let ss := spec_run_from f (init gid gpl) hs in
   exists tipH, tip_height s = Some tipH /\
                verify1 s tipH excess it = spec_verify1 ss (spec_tip ss) excess it.
 Proof.
-  intros Hg Hp Hn He Hh s ss.
+  intros Hg Hp Hn s ss.
   destruct (run_related f hs (init gid gpl) gid (init_inv2 gid gpl Hg) Hp Hn) as (tip' & HI2 & Hd).
   fold (run f gid gpl hs) in HI2, Hd. fold s in HI2, Hd.
   rewrite spec_run_dummy in Hd. fold ss in Hd.
   pose proof HI2 as [HI _]. pose proof HI as (Hwf & (t & Ht & _) & _).
   exists (height t). split; [apply (tip_height_inv s tip' t HI Ht)|].
-  rewrite (verify1_spec s tip' t excess it HI Ht He Hh).
+  rewrite (verify1_spec s tip' t excess it HI Ht).
   assert (Etip: spec_tip ss = tip').
   { rewrite <- (spec_tip_dummy ss), <- Hd, spec_tip_dummy. apply (spec_tip_inv2 s tip' HI2). }
   rewrite Etip.
@@ -372,12 +358,10 @@ Theorem valid_confirmed_iff s tipH excess rt h x : Valid s ->
 Proof. intros HV. destruct (valid_inv s HV) as (tip & t & HI & _). apply (verdict_confirmed_iff s tip). exact HI. Qed.
 
 Theorem valid_unable_iff s tipH excess rt h : Valid s -> tip_height s = Some tipH ->
-  0 <= excess < 2147483648 -> int32 h ->
   (verify1 s tipH excess (rt, h) = UnableToVerify <-> tipH < h <= tipH + excess).
 Proof. intros HV. destruct (valid_inv s HV) as (tip & t & HI & _). apply (verdict_unable_iff s tip). exact HI. Qed.
 
 Theorem valid_invalid_otherwise s tipH excess rt h : Valid s -> tip_height s = Some tipH ->
-  0 <= excess < 2147483648 -> int32 h ->
   (verify1 s tipH excess (rt, h) = Invalid <->
    ~ (exists r, In r s /\ st r = Longest /\ height r = h /\ root r = rt) /\ ~ (tipH < h <= tipH + excess)).
 Proof. intros HV. destruct (valid_inv s HV) as (tip & t & HI & _). apply (invalid_otherwise s tip). exact HI. Qed.
@@ -389,6 +373,10 @@ Proof.
   intros HV Hne. destruct (valid_inv s HV) as (tip & t & HI & Ht). exists (height t).
   split; [apply (tip_height_inv s tip t HI Ht)| apply (verify_total s tip t excess items HI Ht Hne)].
 Qed.
+
+Theorem valid_negative_excess s tipH excess rt h : Valid s -> tip_height s = Some tipH ->
+  excess < 0 -> verify1 s tipH excess (rt, h) <> UnableToVerify.
+Proof. intros HV. destruct (valid_inv s HV) as (tip & t & HI & _). apply (negative_excess_never_unable s tip). exact HI. Qed.
 
 (* ---- a concrete history: G; A, B children of G (A first: B is a stale sibling at height 1); then C on B
         (reorganisation: B, C longest, A stale) and an orphan ---- *)
@@ -427,12 +415,14 @@ Example ex_verdicts_follow_reorg :
   verify (run [] 1 ex_gpl ex_post) 6 [(104%N, 2); (9%N, 8)] = VOk OUnable [(104%N, 2, Confirmed 4); (9%N, 8, UnableToVerify)].
 Proof. vm_compute. repeat split; reflexivity. Qed.
 
-(* The statement for EVERY configured excess is false for the code as it is: int32(maxBlockHeightExcess) wraps.
-   With excess = 2^31 a height one above the tip is INVALID although it lies above the tip by at most the excess. *)
-Theorem excess_wrap_refuted :
+(* History: before fix 54e9bff int32(maxBlockHeightExcess) wrapped and the statement was refuted for excess >= 2^31
+   (excess_wrap_refuted, finding C02-excess-int32-wrap).  With the repaired code the same inputs are answered as the
+   statement says: *)
+Example huge_excess_exact :
   let s := run [] 1 ex_gpl ex_post in
-  Valid s /\ tip_height s = Some 2 /\ 2 < 3 <= 2 + 2147483648 /\
-  verify1 s 2 2147483648 (9%N, 3) = Invalid /\
-  (* and 2^32 + 1 behaves as 1 *)
-  verify1 s 2 4294967297 (9%N, 4) = Invalid.
-Proof. split; [exact ex_post_valid|]. vm_compute. repeat split; try reflexivity; discriminate. Qed.
+  Valid s /\ tip_height s = Some 2 /\
+  verify1 s 2 2147483648 (9%N, 3) = UnableToVerify /\
+  verify1 s 2 2147483648 (9%N, 2147483647) = UnableToVerify /\
+  verify1 s 2 4294967297 (9%N, 4) = UnableToVerify /\
+  verify1 s 2 (-1) (9%N, 3) = Invalid.
+Proof. split; [exact ex_post_valid|]. vm_compute. repeat split; reflexivity. Qed.
